@@ -520,6 +520,30 @@ def correspond(ctx):
                          q(base), q(height), q(ratio), q(srh), q(sill), q(hsep), q(vsep),
                          q(base), q(height), q(ratio), q(srh), q(sill), q(hsep), q(vsep)))
         gmeta.append(('generated Face3D_sub_rects_from_rect_ratio vs SubOffset.rects_ratio', (base, height, ratio, srh, sill, hsep, vsep), 'xy'))
+    # (4) sub_rects_from_rect_dimensions against the layout model SubDims.rects_dims
+    for _ in range(ctx.n(80, 500)):
+        frame, fcls = wall_frame(rng); origin = G.rpt3(rng, 20)
+        x, y, n = frame
+        pl = Plane(V3(n), P3(origin), V3(x))
+        base, height = G.dy(rng.uniform(1, 20)), G.dy(rng.uniform(1, 8))
+        srh = G.dy((rng.uniform(0.1, 1.3) if rng.random() < 0.7 else rng.uniform(0.97, 1.02)) * height, 16)
+        srw = G.dy((rng.uniform(0.1, 1.3) if rng.random() < 0.7 else rng.uniform(0.97, 1.02)) * base, 16)
+        sill = G.dy((rng.uniform(0.0, 0.9) if rng.random() < 0.7 else rng.choice([0.0, 0.005, 0.95, 0.999])) * height, 16)
+        hsep = G.dy(rng.uniform(0.3, 8))
+        hs_eff = srw * 1.02 if srw >= hsep else hsep
+        if abs((base / hs_eff) % 1 - 0.5) < 1e-6 or abs((base / hs_eff) % 1) < 1e-6 or abs((base / hs_eff) % 1 - 1) < 1e-6:
+            continue        # float quotient within 1e-6 of a rounding / floor boundary
+        try:
+            subs = Face3D.sub_rects_from_rect_dimensions(pl, base, height, srh, srw, sill, hsep)
+        except Exception:
+            continue
+        boxes = []
+        for sf in subs:
+            pts = [to_lattice(frame, origin, p)[0] for p in sf.boundary]
+            boxes.append('(%s, %s, %s, %s)' % (q(min(p[0] for p in pts)), q(max(p[0] for p in pts)), q(min(p[1] for p in pts)), q(max(p[1] for p in pts))))
+        cases.append('boxes_close (layout_boxes (rects_dims %s %s %s %s %s %s)) %s' % (
+            q(base), q(height), q(srh), q(srw), q(sill), q(hsep), core.coq_list(boxes)))
+        meta.append(('Face3D.sub_rects_from_rect_dimensions', (base, height, srh, srw, sill, hsep), fcls))
     pre = ('Definition eps : Q := 1 # 100000000.\n'
            'Definition closeq (a b : Q) : bool := Qle_bool (Qabs (a - b)) eps.\n'
            'Definition close2 (a b : V2) : bool := closeq (v2x a) (v2x b) && closeq (v2y a) (v2y b).\n'
@@ -535,8 +559,8 @@ def correspond(ctx):
            'Definition face_box (f : Face3R) : Q * Q * Q * Q := let xs := map v3x (f3_boundary f) in let ys := map v3y (f3_boundary f) in '
            '(py_min_list xs, py_max_list xs, py_min_list ys, py_max_list ys).\n'
            'Definition boxes_close (a b : list (Q * Q * Q * Q)) : bool := Nat.eqb (length a) (length b) && forallb (fun p => box_close (fst p) (snd p)) (combine a b).\n')
-    res = core.run_cases('C19_corr', ['Base', 'QGeom', 'G0_vec', 'G1_shapes', 'G11_sub', 'SubOffset'], pre, cases)
-    res += core.run_cases('C19_corr_gen', ['Base', 'QGeom', 'G0_vec', 'G1_shapes', 'G11_sub', 'SubOffset'], pre, gcases, chunk=1)
+    res = core.run_cases('C19_corr', ['Base', 'QGeom', 'G0_vec', 'G1_shapes', 'G11_sub', 'SubOffset', 'SubDims'], pre, cases)
+    res += core.run_cases('C19_corr_gen', ['Base', 'QGeom', 'G0_vec', 'G1_shapes', 'G11_sub', 'SubOffset', 'SubDims'], pre, gcases, chunk=1)
     meta += gmeta
     ctx.corr_cases += len(cases) + len(gcases)
     for ok, m in zip(res, meta):
